@@ -132,6 +132,36 @@ def _expand(args):
     return out
 
 
+def _bisim(pairs):
+    """Worker: two histories merged by the canonical key must have the same
+    menu and pairwise-merging one-step successors with the same verdicts."""
+    spec = _SPEC
+    out = []
+    def one(hist, ev):
+        # worlds share process-wide state (virtual clock): never keep two alive
+        w = build(spec, hist)
+        k = len(w.viol)
+        ok, _ = step(spec, w, ev)
+        v = sorted((x['clause'], str(x['site'])) for x in w.viol[k:])
+        return ok, v, (digest(spec.canon(w)) if ok else None)
+
+    for h1, h2 in pairs:
+        m1 = spec.enabled(build(spec, h1))
+        m2 = spec.enabled(build(spec, h2))
+        if m1 != m2:
+            out.append((False, (list(h1), list(h2), 'menus differ')))
+            continue
+        ok = True
+        for ev in m1:
+            if one(h1, ev) != one(h2, ev):
+                ok = False
+                out.append((False, (list(h1), list(h2), list(ev))))
+                break
+        if ok:
+            out.append((True, None))
+    return out
+
+
 def _chunks(seq, n):
     for i in range(0, len(seq), n):
         yield seq[i:i + n]
@@ -151,10 +181,13 @@ class Result:
         self.exceptions = []
         self.level_sizes = []
         self.wall_s = 0.0
+        self.bisim_pairs = 0
+        self.bisim_failures = []
 
 
 def bfs(spec, max_depth, max_dev=0, workers=None, time_cap=None,
-        state_cap=None, chunk=16, progress=None, init_histories=((),)):
+        state_cap=None, chunk=16, progress=None, init_histories=((),),
+        bisim_depth=0):
     """Level-synchronous BFS.  Returns Result."""
     global _SPEC  # pylint: disable=global-statement
     _SPEC = spec
@@ -163,6 +196,8 @@ def bfs(spec, max_depth, max_dev=0, workers=None, time_cap=None,
     t0 = time.perf_counter()
 
     seen = set()
+    first = {}          # key -> first history (only for depth <= bisim_depth)
+    merges = []         # (first history, later history) mapped to one key
     frontier = []
     for h in init_histories:
         w = build(spec, h)
@@ -214,6 +249,11 @@ def bfs(spec, max_depth, max_dev=0, workers=None, time_cap=None,
                         seen.add(key)
                         nxt.append(h2)
                         level_new += 1
+                        if depth <= bisim_depth:
+                            first[key] = h2
+                    elif depth <= bisim_depth and key in first \
+                            and first[key] != h2:
+                        merges.append((first[key], h2))
             if aborted:
                 if pool:
                     pool.terminate()
@@ -257,6 +297,20 @@ def bfs(spec, max_depth, max_dev=0, workers=None, time_cap=None,
                         _note(res, v, job[0][hidx] + tuple(
                             tuple(e) for e in v.pop('suffix', ())))
             res.final_probe_pass = True
+        if merges and pool is not None:
+            bad = 0
+            jobs = list(_chunks(merges, 8))
+            for outs in pool.imap(_bisim, jobs):
+                res.bisim_pairs += len(outs)
+                for ok, pair in outs:
+                    if not ok:
+                        bad += 1
+                        if len(res.bisim_failures) < 3:
+                            res.bisim_failures.append(pair)
+            if bad:
+                raise HarnessError(
+                    'canonical key too coarse: %d merged pairs have diverging '
+                    'successors, e.g. %r' % (bad, res.bisim_failures[0]))
     finally:
         if pool:
             pool.close()
